@@ -67,6 +67,10 @@ type vFrameFields struct {
 	J string `json:"j"`
 	w vI1    `wire:""`
 	s string `value:"x"`
+	// foreign tag keys that merely end in a recognised key
+	DV string `db_value:"zz"`
+	HW vI1    `hardwire:""`
+	NC string `nocustom:"q"`
 }
 
 type vShapeE1 struct { // exported embedded struct, depth 1
@@ -191,6 +195,8 @@ type vScanResult struct {
 	w       any
 	v, p, x string
 	l       bool
+	lg      syslog.Logger
+	lgWant  syslog.Logger // the component's own logger: the one syslog hands out for the component's name
 	c       string
 	frame   vFrameFields
 	second  *VScanTagged // second copy of the tagged block (shape 8)
@@ -327,6 +333,8 @@ func vRunShape(shape int, fr vFrameFields, init VScanTagged, cfg *vScanCfg, prov
 	t := tagged()
 	res.taggedV = t
 	res.w, res.v, res.p, res.x, res.l, res.c = t.W, t.V, t.P, t.X, t.L != nil, t.C
+	res.lg = t.L
+	res.lgWant = syslog.Pref(hm.String())
 	res.frame = frame()
 	if second != nil {
 		t2 := second()
@@ -339,7 +347,7 @@ func VerifC11() {
 	shapes := []int{1, 2, 3, 4, 5, 6, 9, 8, 10, 11}
 	shape := shapes[nd.Choose(nd.Param("SHAPES", len(shapes)))]
 	// symbolic initial contents of every frame field and of the tagged string fields
-	fr := vFrameFields{u: int(nd.Int64()), N: int(nd.Int64()), J: nd.Bytes(1), s: nd.Bytes(1)}
+	fr := vFrameFields{u: int(nd.Int64()), N: int(nd.Int64()), J: nd.Bytes(1), s: nd.Bytes(1), DV: nd.Bytes(1), NC: "nc"}
 	init := VScanTagged{V: nd.Bytes(1), P: nd.Bytes(1), X: nd.Bytes(1), C: nd.Bytes(1)}
 	cfg := &vScanCfg{k: vLetterStr(1), k2: vLetterStr(1), k3: vLetterStr(1)}
 	provA, provB := &vPA{vAttr{id: 1, nm: "prov"}}, &vPA{vAttr{id: 1, nm: "prov"}}
@@ -355,7 +363,7 @@ func VerifC11() {
 	}
 	// frame condition, every shape
 	for _, r := range []vScanResult{flat, got} {
-		nd.Assert(r.frame.u == fr.u && r.frame.N == fr.N && r.frame.J == fr.J && r.frame.s == fr.s && r.frame.w == nil, "C11: unexported, untagged and foreign-tagged fields are never modified")
+		nd.Assert(r.frame.u == fr.u && r.frame.N == fr.N && r.frame.J == fr.J && r.frame.s == fr.s && r.frame.w == nil && r.frame.DV == fr.DV && r.frame.HW == nil && r.frame.NC == fr.NC, "C11: unexported, untagged and foreign-tagged fields are never modified")
 	}
 	nd.Assert(got.ok, "C11: the embedded shape starts")
 	switch {
@@ -385,6 +393,8 @@ func VerifC11() {
 			}
 		}
 		nd.Assert(got.w == any(provB) && got.v == cfg.k && got.p == cfg.k2 && got.x == cfg.k3 && got.l, "C11: every recognised tag inside embedded structs is processed as on the flat shape")
+		nd.Assert(flat.lg == flat.lgWant, "C11: a logger field without a prefix receives its component's logger")
+		nd.Assert(got.lg == got.lgWant, "C11: a logger field receives its component's logger whether it is declared directly or inside embedded structs")
 		nd.Assert(got.c == init.C, "C11: a field with a custom tag is not modified by the container")
 		nd.Assert(len(got.custom) == 1 && got.custom[0] == flat.custom[0], "C11: the custom tag processor receives exactly the fields carrying its tag, with value and arguments")
 	default:
